@@ -227,6 +227,135 @@ theorem parseAll_misdetects_iff (ext : Ext) (fcbSup : Bool) (d : Desc) (init : N
       ∃ r, firstSome (trial ext fcbSup d.segs b) (0 :: pre) = some r ∧ r ≠ (init, expectedFound init (mkSlots d.segs raws)) :=
   Bimg.parseAll_misdetects_iff' ext fcbSup d init raws h hsup hdel b hb pre post hc
 
+/-! ## 5b. Flash dumps: trailing bytes behind the last segment
+
+`TrailOK init slots n tail` (Model/BimgSpec.lean): the last table entry is not a whole-rest parser, and if it is an absent
+floating entry the trailing bytes end at or before the aligned offset where `_parse` would look for it. -/
+
+/-- parsing the exported image FOLLOWED BY trailing bytes recovers exactly the same segments at the same offsets -/
+theorem parse_export_trailing (ext : Ext) (fcbSup : Bool) (d : Desc) (init : Nat) (raws : List (Option Bytes))
+    (h : Ctx d init raws) (hsup : Supplied init (mkSlots d.segs raws)) (hdel : Delimit ext fcbSup init (mkSlots d.segs raws))
+    (b : Bytes) (hb : exportImg d init raws = .ok b) (tail : Bytes)
+    (ht : TrailOK init (mkSlots d.segs raws) b.length tail) :
+    walk ext fcbSup init d.segs (b ++ tail) = .ok (expectedFound init (mkSlots d.segs raws)) :=
+  Bimg.parse_export_tail' ext fcbSup d init raws h hsup hdel b hb tail ht
+
+/-- … and so does `BootableImage.parse` for a full image … -/
+theorem parseAll_full_trailing (ext : Ext) (fcbSup : Bool) (d : Desc) (raws : List (Option Bytes))
+    (h : Ctx d 0 raws) (hsup : Supplied 0 (mkSlots d.segs raws)) (hdel : Delimit ext fcbSup 0 (mkSlots d.segs raws))
+    (b : Bytes) (hb : exportImg d 0 raws = .ok b) (tail : Bytes)
+    (ht : TrailOK 0 (mkSlots d.segs raws) b.length tail) :
+    parseAll ext fcbSup d.segs (b ++ tail) = .ok (0, expectedFound 0 (mkSlots d.segs raws)) :=
+  Bimg.parseAll_full_tail' ext fcbSup d raws h hsup hdel b hb tail ht
+
+/-- … and for an image that starts at a later INIT segment (same proviso on the earlier trials as `parseAll_later`) -/
+theorem parseAll_later_trailing (ext : Ext) (fcbSup : Bool) (d : Desc) (init : Nat) (raws : List (Option Bytes))
+    (h : Ctx d init raws) (hsup : Supplied init (mkSlots d.segs raws)) (hdel : Delimit ext fcbSup init (mkSlots d.segs raws))
+    (b : Bytes) (hb : exportImg d init raws = .ok b) (tail : Bytes)
+    (ht : TrailOK init (mkSlots d.segs raws) b.length tail)
+    (pre post : List Int) (hc : initCandidates d.segs = pre ++ (init : Int) :: post)
+    (h0 : trial ext fcbSup d.segs (b ++ tail) 0 = none) (hpre : ∀ c ∈ pre, trial ext fcbSup d.segs (b ++ tail) c = none) :
+    parseAll ext fcbSup d.segs (b ++ tail) = .ok (init, expectedFound init (mkSlots d.segs raws)) :=
+  Bimg.parseAll_later_tail' ext fcbSup d init raws h hsup hdel b hb tail ht pre post hc h0 hpre
+
+/-- why `TrailOK` excludes the whole-rest parsers (MBI, HAB, SB2.1, SB3.1 rows): the container parser is handed
+    container ++ trailing bytes and, when it accepts, ALL of it becomes the segment's raw block (the supplied bytes come back
+    as a prefix only) -/
+theorem greedy_takes_tail (ext : Ext) (fcbSup : Bool) (s : Seg) (c tail : Bytes)
+    (hp : s.parser = .greedy ∨ s.parser = .sb) (hsz : s.size < 0) (hne : c ≠ []) :
+    parseSeg ext fcbSup s (c ++ tail) = (match ext.app s.kind (c ++ tail) with
+      | some _ => .present (c ++ tail)
+      | none => .err) :=
+  Bimg.greedy_takes_tail' ext fcbSup s c tail hp hsz hne
+
+/-! ## 5c. Every byte of the exported image is accounted for -/
+
+/-- every byte of the exported image lies inside EXACTLY ONE supplied segment and equals that segment's byte there, or lies
+    in no segment and holds the device's fill pattern -/
+theorem export_bytes_classified (d : Desc) (init : Nat) (raws : List (Option Bytes)) (h : Ctx d init raws) (b : Bytes)
+    (hb : exportImg d init raws = .ok b) (k : Nat) (hk : k < b.length) :
+    (∃ i s o, (mkSlots d.segs raws)[i]? = some s ∧ s.present init = true ∧
+        segOffset init (mkSlots d.segs raws) i = .ok o ∧ o ≤ (k : Int) ∧ (k : Int) < o + s.len ∧
+        b[k]? = s.bytes[k - o.toNat]? ∧
+        ∀ j t oj, (mkSlots d.segs raws)[j]? = some t → t.present init = true →
+          segOffset init (mkSlots d.segs raws) j = .ok oj → oj ≤ (k : Int) → (k : Int) < oj + t.len → j = i) ∨
+    ((∀ i s o, (mkSlots d.segs raws)[i]? = some s → s.present init = true →
+        segOffset init (mkSlots d.segs raws) i = .ok o → ¬ (o ≤ (k : Int) ∧ (k : Int) < o + s.len)) ∧
+      b[k]? = some (if d.pattern = .ones then 0xFF else 0x00)) := by
+  by_cases hex : ∃ i s o, (mkSlots d.segs raws)[i]? = some s ∧ s.present init = true ∧
+      segOffset init (mkSlots d.segs raws) i = .ok o ∧ o ≤ (k : Int) ∧ (k : Int) < o + s.len
+  · obtain ⟨i, s, o, hs, hp, ho, h1, h2⟩ := hex
+    left
+    obtain ⟨ho0, hbytes⟩ := placed d init raws h b hb i s o hs hp ho
+    refine ⟨i, s, o, hs, hp, ho, h1, h2, ?_, ?_⟩
+    · have hm : k - o.toNat < s.len := by omega
+      have e : k = o.toNat + (k - o.toNat) := by omega
+      have := congrArg (fun l => l[k - o.toNat]?) hbytes
+      simp only [List.getElem?_take, if_pos hm, List.getElem?_drop] at this
+      rw [← this, ← e]
+    · intro j t oj ht hpt hoj h3 h4
+      rcases Nat.lt_trichotomy j i with hji | hji | hji
+      · have := no_overwrite d init raws h j i t s oj o hji ht hs hpt hp hoj ho
+        omega
+      · exact hji
+      · have := no_overwrite d init raws h i j s t o oj hji hs ht hp hpt ho hoj
+        omega
+  · right
+    have hfree : ∀ i s o, (mkSlots d.segs raws)[i]? = some s → s.present init = true →
+        segOffset init (mkSlots d.segs raws) i = .ok o → ¬ (o ≤ (k : Int) ∧ (k : Int) < o + s.len) := by
+      intro i s o hs hp ho hin
+      exact hex ⟨i, s, o, hs, hp, ho, hin.1, hin.2⟩
+    exact ⟨hfree, gaps_pattern d init raws h b hb k hk hfree⟩
+
+/-- … for every (family, revision, memory type) row of the database: the row's generated segment table and fill pattern,
+    every init offset the setter can answer, every set of supplied segments that fit -/
+theorem export_bytes_classified_rows : ∀ r ∈ BimgTables.rows, ∃ l d, BimgTables.layouts[r.layout]? = some l ∧ resolve l = some d ∧
+    ∀ (init : Nat) (raws : List (Option Bytes)), raws.length = d.segs.length → (init = 0 ∨ init ∈ statics d.segs) →
+      fits (mkSlots d.segs raws) = true → (∃ s ∈ mkSlots d.segs raws, s.present init = true) →
+      ∃ b, exportImg d init raws = .ok b ∧ ∀ k, k < b.length →
+        (∃ i s o, (mkSlots d.segs raws)[i]? = some s ∧ s.present init = true ∧
+          segOffset init (mkSlots d.segs raws) i = .ok o ∧ o ≤ (k : Int) ∧ (k : Int) < o + s.len ∧
+          b[k]? = s.bytes[k - o.toNat]?) ∨
+        b[k]? = some (if l.pattern = "ones" then 0xFF else 0x00) := by
+  intro r hr
+  obtain ⟨l, d, hl, hd, hok⟩ := rows_wf r hr
+  refine ⟨l, d, hl, hd, ?_⟩
+  intro init raws hlen hadm hfits hne
+  have h : Ctx d init raws := ⟨hok, hlen, hadm, hfits, hne⟩
+  obtain ⟨b, hb, _⟩ := export_ok d init raws h
+  refine ⟨b, hb, ?_⟩
+  intro k hk
+  have hpat : (if d.pattern = .ones then (0xFF : UInt8) else 0x00) = (if l.pattern = "ones" then 0xFF else 0x00) := by
+    have hz := (Bimg.bimg_descOK_parts d hok).2.2.1
+    unfold resolve at hd
+    cases hrs : resolveSegs l.segs with
+    | none => simp [hrs] at hd
+    | some ss =>
+      cases hpo : patOf l.pattern with
+      | none => simp [hrs, hpo] at hd
+      | some pt =>
+        simp only [hrs, hpo, Option.some.injEq] at hd
+        subst hd
+        simp only at hz ⊢
+        unfold patOf at hpo
+        by_cases e1 : l.pattern = "zeros"
+        · simp [e1] at hpo ⊢
+          subst hpo
+          simp
+        · by_cases e2 : l.pattern = "ones"
+          · simp [e2] at hpo ⊢
+            subst hpo
+            simp
+          · by_cases e3 : l.pattern = "inc"
+            · simp [e3] at hpo
+              subst hpo
+              rcases hz with hz | hz <;> cases hz
+            · simp [e1, e2, e3] at hpo
+  rcases export_bytes_classified d init raws h b hb k hk with ⟨i, s, o, h1, h2, h3, h4, h5, h6, _⟩ | ⟨_, h2⟩
+  · exact Or.inl ⟨i, s, o, h1, h2, h3, h4, h5, h6⟩
+  · right
+    rw [h2, hpat]
+
 /-! ## 6. Parse without memory type (`BootableImage.parse(binary, family)`: the family's memory types in database order) -/
 
 /-- the first memory type whose full-image trial accepts wins (the later-start trials run only when none does) -/
@@ -247,6 +376,34 @@ theorem parse_any_memtype (ext : Ext) (fcbSup : Bool) (descs : List (List Seg)) 
     ∃ j, j ≤ i ∧ descs[j]? = some d.segs ∧
       parseAny ext fcbSup descs b = .ok (j, 0, expectedFound 0 (mkSlots d.segs raws)) :=
   Bimg.parseAny_full' ext fcbSup descs i d raws hi h hsup hdel b hb hearlier
+
+/-- the selection loop, exactly, for a full image made for the `i`-th memory type - NO assumption on the other memory types:
+    the answer is the first memory type in database order whose full-image trial accepts the image; it is the own one or an
+    earlier one; when it has the own segment table (own memory type or a twin) the answer is init offset 0 and exactly the
+    supplied segments -/
+theorem parse_any_selects (ext : Ext) (fcbSup : Bool) (descs : List (List Seg)) (i : Nat) (d : Desc) (raws : List (Option Bytes))
+    (hi : descs[i]? = some d.segs)
+    (h : Ctx d 0 raws) (hsup : Supplied 0 (mkSlots d.segs raws)) (hdel : Delimit ext fcbSup 0 (mkSlots d.segs raws))
+    (b : Bytes) (hb : exportImg d 0 raws = .ok b) :
+    ∃ j sj r, j ≤ i ∧ descs[j]? = some sj ∧
+      (∀ k, k < j → ∀ s, descs[k]? = some s → trial ext fcbSup s b 0 = none) ∧
+      trial ext fcbSup sj b 0 = some r ∧ parseAny ext fcbSup descs b = .ok (j, r.1, r.2) ∧
+      (sj = d.segs → r = (0, expectedFound 0 (mkSlots d.segs raws))) :=
+  Bimg.parseAny_selects' ext fcbSup descs i d raws hi h hsup hdel b hb
+
+/-- when it is ambiguous, precisely: the answer is NOT (a memory type with the own segment table, init offset 0, the supplied
+    segments) if and only if the first memory type whose full-image trial accepts the image comes BEFORE the own one and has
+    ANOTHER segment table (decidable for a given `Ext`; on the real parsers this happens for the lenient MBI parser only:
+    open finding `C14-untyped-parse-mbi-lenient`, and for images that legitimately are images of both memory types) -/
+theorem parse_any_ambiguous_iff (ext : Ext) (fcbSup : Bool) (descs : List (List Seg)) (i : Nat) (d : Desc) (raws : List (Option Bytes))
+    (hi : descs[i]? = some d.segs)
+    (h : Ctx d 0 raws) (hsup : Supplied 0 (mkSlots d.segs raws)) (hdel : Delimit ext fcbSup 0 (mkSlots d.segs raws))
+    (b : Bytes) (hb : exportImg d 0 raws = .ok b) :
+    (¬ ∃ j, descs[j]? = some d.segs ∧
+        parseAny ext fcbSup descs b = .ok (j, 0, expectedFound 0 (mkSlots d.segs raws))) ↔
+    ∃ k s, k < i ∧ descs[k]? = some s ∧ s ≠ d.segs ∧ (trial ext fcbSup s b 0).isSome = true ∧
+      ∀ k', k' < k → ∀ s', descs[k']? = some s' → trial ext fcbSup s' b 0 = none :=
+  Bimg.parseAny_ambiguous_iff' ext fcbSup descs i d raws hi h hsup hdel b hb
 
 /-! ## 7. `Delimit` discharged for application containers from the container models (C01 MBI, C07 HAB, C05 SB3.1 header)
 
@@ -423,6 +580,35 @@ example : (match exportImg exDesc 8 exRaws with
     | .error _ => false) = true := by decide +kernel
 example : expectedFound 8 (mkSlots exDesc.segs exRaws) =
     [none, some (0, exFcb), some (24, [0xA5, 5, 1, 2, 3]), some (32, [0xA5, 3, 8])] := by decide +kernel
+
+/-- flash dumps: `TrailOK` holds for any trailing bytes when the floating last entry is supplied, and for trailing bytes inside
+    the alignment gap (37 → 40) when it is not -/
+example : TrailOK 0 (mkSlots exDesc.segs exRaws) 43 (List.replicate 100 7) := by
+  intro s hs
+  have e : (mkSlots exDesc.segs exRaws).getLast? = some ⟨exDesc.segs[3], some [0xA5, 3, 8]⟩ := by decide
+  rw [e] at hs; cases hs
+  exact ⟨by decide, by decide, fun h => absurd h (by decide)⟩
+example : TrailOK 0 (mkSlots exDesc.segs exRaws2) 37 [7, 7, 7] := by
+  intro s hs
+  have e : (mkSlots exDesc.segs exRaws2).getLast? = some ⟨exDesc.segs[3], none⟩ := by decide
+  rw [e] at hs; cases hs
+  exact ⟨by decide, by decide, fun _ => by decide⟩
+/-- export, append trailing bytes, `parse` (all trials): the same answer as without them -/
+def exTrailTrip (init : Nat) (raws : List (Option Bytes)) (tail : Bytes) : Bool :=
+  match exportImg exDesc init raws with
+  | .ok b => decide (parseAll exExt false exDesc.segs (b ++ tail) = .ok (init, expectedFound init (mkSlots exDesc.segs raws)))
+  | .error _ => false
+example : ∀ p ∈ [(0, exRaws, List.replicate 100 7), (32, exRaws, [0xA5, 9, 9]), (0, exRaws2, [7, 7, 7]), (8, exRaws2, [1, 2, 3])],
+    exTrailTrip p.1 p.2.1 p.2.2 = true := by decide +kernel
+/-- the gap condition of `TrailOK` is needed: with the floating entry absent and trailing bytes that reach beyond the aligned
+    offset (40) where it would be looked for, `find_segment_offset` runs over the trailing bytes, finds no container and the
+    whole parse fails (every trial) -/
+example : (match exportImg exDesc 0 exRaws2 with
+    | .ok b => decide (b.length = 37 ∧ parseAll exExt false exDesc.segs (b ++ [7, 7, 7, 7]) = .error .spsdk)
+    | .error _ => false) = true := by decide +kernel
+/-- every byte of an export is a segment byte or the fill byte (`export_bytes_classified` on the example) -/
+example : exportImg exDesc 8 exRaws =
+    .ok (exFcb ++ List.replicate 16 0 ++ [0xA5, 5, 1, 2, 3] ++ [0, 0, 0] ++ [0xA5, 3, 8]) := by decide +kernel
 
 /-- parse without memory type: a family with two memory types - a container-only table (like serial_downloader) first, then
     `exDesc`; the full image made for the second is answered with index 1 (the first one's trial rejects the padding), and the
